@@ -69,6 +69,14 @@ class Sched:
                 self.owners[lock_token] = tid
             self.trace.append((tid, label))
 
+    def try_acquire(self, tid, token):
+        """coarse mode: take an uncontended lock without yielding"""
+        with self.cv:
+            if self.free or token in self.owners:
+                return False
+            self.owners[token] = tid
+            return True
+
     def release(self, tid, token):
         with self.cv:
             if self.owners.get(token) == tid:
@@ -87,6 +95,7 @@ class Sched:
 
 CUR = [None]
 TID = threading.local()
+COARSE = [False]  # coarse mode: yield only at start/open/seek/read; uncontended lock acquisitions do not yield
 
 
 def _tid():
@@ -96,6 +105,8 @@ def _tid():
 def fs_hook(ev):
     s = CUR[0]
     if s is not None and ev[0] == "pre" and _tid() is not None:
+        if COARSE[0] and ev[1] not in ("open", "seek", "read"):
+            return
         s.yield_point(_tid(), ev[1])
 
 
@@ -110,7 +121,8 @@ class SLock(SerializableLock):
     def acquire(self, *a, **k):
         s = CUR[0]
         if s is not None and _tid() is not None:
-            s.yield_point(_tid(), "lock", lock_token=self.token)
+            if not (COARSE[0] and s.try_acquire(_tid(), self.token)):
+                s.yield_point(_tid(), "lock", lock_token=self.token)
         return self.lock.acquire(*a, **k)
 
     def release(self, *a, **k):
